@@ -38,6 +38,7 @@ const (
 	svStruct         // evaluated fields
 	svTuple          // results of an inlined call
 	svNil            // nil map, slice, pointer, error
+	svOpaque         // action mode: a value the walk does not compute (a $k member, the result of a call that is not inlined)
 )
 
 type sval struct {
@@ -49,6 +50,28 @@ type sval struct {
 	info   *types.Info
 	elems  []sval
 	fields map[string]sval
+	// svOpaque: sym is its identity; origin says where it comes from ("$1.expr.n",
+	// or "call" with fn, idx (which result) and elems (the arguments))
+	origin string
+	fn     *core.Func
+	idx    int
+}
+
+// sevent is a call the action walk records instead of following.
+type sevent struct {
+	kind  string // as classified by the walker's event hook
+	args  []sval
+	pos   token.Pos
+	ncons int // how many comparisons the path had decided when the call was made
+}
+
+// scons is a comparison of an opaque value with a constant that a path has
+// decided: opaque #id == c is truth.
+type scons struct {
+	id    int
+	c     constant.Value
+	truth bool
+	v     sval // the opaque value compared
 }
 
 type symState struct {
@@ -67,6 +90,8 @@ type spath struct {
 	returned bool
 	brk      bool
 	cont     bool
+	events   []sevent
+	cons     []scons
 }
 
 func (p *spath) clone() *spath {
@@ -85,6 +110,8 @@ func (p *spath) clone() *spath {
 	}
 	q.emitted = append([]sval(nil), p.emitted...)
 	q.ret = append([]sval(nil), p.ret...)
+	q.events = append([]sevent(nil), p.events...)
+	q.cons = append([]scons(nil), p.cons...)
 	return q
 }
 
@@ -112,6 +139,11 @@ type scanWalker struct {
 	read, unread, emt *core.Func
 	aborted           string
 	steps             int
+	// action mode (actionpaths.go)
+	action  bool
+	classify func(h *core.Func) string // "" or the kind of event a call of h is
+	inlineOK func(h *core.Func) bool   // whether a call of h is followed
+	nextID  int
 }
 
 type scanAbort struct{ why string }
@@ -365,6 +397,9 @@ func (w *scanWalker) assign(g *core.Func, s *ast.AssignStmt, st *spath, depth in
 	set := func(p *spath, lhs ast.Expr, v sval) {
 		id, ok := ast.Unparen(lhs).(*ast.Ident)
 		if !ok {
+			if w.action {
+				w.store(g, p, lhs, v)
+			}
 			return // a field or an element: lexer state, not tracked
 		}
 		if id.Name == "_" {
@@ -740,7 +775,17 @@ func (w *scanWalker) eval(g *core.Func, e ast.Expr, st *spath, depth int) []sres
 		}
 		return []sres{{st, sval{}}}
 	case *ast.IndexExpr:
+		if w.action {
+			if v, ok := w.dollarOf(g, e); ok {
+				return []sres{{st, v}}
+			}
+		}
 		return w.index(g, e, st, depth, false)
+	case *ast.StarExpr:
+		if w.action {
+			return w.eval(g, e.X, st, depth) // pointers to tracked structs are bound by copy-in/copy-out
+		}
+		return []sres{{st, sval{}}}
 	case *ast.CallExpr:
 		return w.callExpr(g, e, st, depth)
 	case *ast.UnaryExpr:
@@ -750,6 +795,9 @@ func (w *scanWalker) eval(g *core.Func, e ast.Expr, st *spath, depth int) []sres
 				out = append(out, sres{b.p, sval{kind: svConst, c: constant.MakeBool(!b.truth)}})
 			}
 			return out
+		}
+		if w.action && e.Op == token.AND {
+			return w.eval(g, e.X, st, depth) // &x handed to a helper: bound by copy-in/copy-out (actionCall)
 		}
 		var out []sres
 		for _, r := range w.eval(g, e.X, st, depth) {
@@ -919,6 +967,10 @@ func (w *scanWalker) callExpr(g *core.Func, e *ast.CallExpr, st *spath, depth in
 	var out []sres
 	for _, as := range cur {
 		p := as.p
+		if w.action {
+			out = append(out, w.actionCall(g, e, h, as.args, p, depth)...)
+			continue
+		}
 		switch {
 		case h != nil && h == w.read:
 			p.syms = append(p.syms, symState{})
@@ -1087,6 +1139,10 @@ func (w *scanWalker) cond(g *core.Func, e ast.Expr, st *spath, depth int) []sbra
 			out = append(out, sbranch{r.p, constant.BoolVal(r.v.c)})
 			continue
 		}
+		if r.v.kind == svOpaque {
+			out = append(out, w.equal(r.v, sval{kind: svConst, c: constant.MakeBool(true)}, r.p)...)
+			continue
+		}
 		out = append(out, sbranch{r.p, true}, sbranch{r.p.clone(), false})
 	}
 	return out
@@ -1099,6 +1155,20 @@ func (w *scanWalker) equal(a, b sval, p *spath) []sbranch {
 	}
 	if a.kind == svNil && b.kind != svNil {
 		a, b = b, a
+	}
+	if a.kind == svConst && b.kind == svOpaque {
+		a, b = b, a
+	}
+	if a.kind == svOpaque && b.kind == svConst {
+		for _, k := range p.cons {
+			if k.id == a.sym && constant.Compare(k.c, token.EQL, b.c) {
+				return []sbranch{{p, k.truth}}
+			}
+		}
+		q := p.clone()
+		p.cons = append(p.cons, scons{a.sym, b.c, true, a})
+		q.cons = append(q.cons, scons{a.sym, b.c, false, a})
+		return []sbranch{{p, true}, {q, false}}
 	}
 	switch {
 	case a.kind == svNil && b.kind == svNil:
